@@ -493,6 +493,38 @@ pub fn run(ctx: &Ctx) -> Rep {
                     }
                 }
             }
+            // directed "the write completes the rank" pass: for every size, rank and written slot, the other slots
+            // hold the other cards of that rank (up to three, in every order of the four suits) and the write
+            // supplies the missing one - after which the container holds a pair / trips / all four suits of a
+            // rank, in an order that is generally not the sorted one. A setter that tidies up a completed set
+            // (sorts, de-duplicates, marks) changes slots it was not asked to change.
+            if !ctx.smoke() {
+                for n in 2..=7usize {
+                    for r in 0..13u8 {
+                        for s in 0..n {
+                            for perm in 0..24u64 {
+                                let suits = crate::drive::nth_permutation(4, perm);
+                                let same = n.min(4);
+                                let others: Vec<usize> = (0..n).filter(|&k| k != s).collect();
+                                let mut w: Vec<u32> = vec![0; n];
+                                for (k, &slot) in others.iter().enumerate() {
+                                    w[slot] = if k < same - 1 {
+                                        crate::model::word(crate::model::idx(r, suits[k]))
+                                    } else {
+                                        crate::model::word(crate::model::idx((r + 2 + k as u8) % 13, (k % 4) as u8))
+                                    };
+                                }
+                                w[s] = crate::model::word(crate::model::idx((r + 6) % 13, 3));
+                                let missing = crate::model::word(crate::model::idx(r, suits[same - 1]));
+                                let ops = vec![Op::New(0, w), Op::Set(s, missing), Op::Set(s, 0), Op::Set(s, missing)];
+                                run_history(&mut st, n, &ops);
+                                st.rep.distinct += 1;
+                                st.rep.add("directed_write_completes_the_rank_histories", 1);
+                            }
+                        }
+                    }
+                }
+            }
             // directed "the other slots hold four of a kind" pass: for sizes 5..7, every rank, every written slot and
             // a seeded arrangement of that rank's four cards in other slots, then a write of each card of that rank,
             // of its flagged forms and of an unrelated card into the remaining slot(s)
